@@ -6,7 +6,7 @@ From Coq Require Import ZArith List Bool Relations.Relation_Operators.
 Import ListNotations.
 From ClapModel Require Import Base.Bytes Base.Machine.
 From ClapModel Require Import Parse.Cmd Parse.Build Parse.Valid Parse.Matcher Parse.Errors Parse.Validator Parse.Parser.
-From ClapModel Require Import ParseProofs.Relations ParseProofs.RelationsTree ParseProofs.RelationsClauses ParseProofs.RelationsComplete ParseProofs.RelationsFamilies ParseProofs.RelationsCoherent.
+From ClapModel Require Import ParseProofs.Relations ParseProofs.RelationsTree ParseProofs.RelationsClauses ParseProofs.RelationsComplete ParseProofs.RelationsFamilies ParseProofs.RelationsCoherent ParseProofs.RelationsLoop ParseProofs.RelationsCompleteAll ParseProofs.RelationsClauses3.
 From ClapModel Require Import ParseProofs.ValidateTotal.
 From ClapModel Require Import ParseProofs.Safe ParseProofs.Invariant ParseProofs.Totality ParseProofs.TotalityMain ParseProofs.IndexInv.
 From ClapModel Require Import ParseProofs.Globals.
@@ -425,7 +425,8 @@ Print Assumptions C03_static_nonvacuous.
     [f2_family c]: some arg overrides ANOTHER arg and one of the two belongs to a group.
     [group_safe c] = neither.  Both findings go through one function, [Parser::remove_overrides].
 
-    FULL STATEMENT (kept visible; NOT proved -- carried by the differential run and the oracle):
+    FULL STATEMENT (round 2 kept it visible; PROVED in round 3: [C03_parse_sound_members] and
+    [C03_level_coherent] below, traversal in ParseProofs/RelationsLoop.v):
       forall c0 toks st, plain c0 = true -> valid c0 = true ->
         (every level of the built tree is [group_safe]) -> run_level c0 toks = ROk st ->
         coherent_b (build_self c0) (mt st) = true            (hence [RelationsM], by
@@ -526,3 +527,284 @@ Theorem C03_required_set_exact : forall c mt required, fm_wf mt ->
   forall x, In x required <-> Required c mt (present mt) x.
 Proof. exact RequiresChain.required_set_exact. Qed.
 Print Assumptions C03_required_set_exact.
+
+(** ---------------------------------------------------------------------------------------
+    ROUND 3 (ParseProofs/RelationsLoop.v): coherence of the group entries carried through the whole
+    level by a dedicated traversal, and the chain theorem with hypotheses only ALONG the reported
+    chain (a sibling that the parse did not descend into may ignore errors / lie in a family). *)
+
+(** the traversal: a state predicate that reads only the entries of the matcher and is preserved
+    by one whole command-line occurrence ([react]) and by [resolve_pending] is preserved by the
+    token loop -- for predicates that are NOT closed under removal of arbitrary entries
+    (partial correctness; error states unconstrained) *)
+Theorem C03_loop_carries : forall (c : cmd) (J : ps -> Prop),
+  (forall st st', mt_args (mt st') = mt_args (mt st) -> J st -> J st') ->
+  (forall idn a raw ti st, In a (c_args c) -> J st ->
+     Dispatch.holds (fun x => J (fst x)) anyE (react c idn SCmdLine a raw ti st)) ->
+  (forall st, J st -> Dispatch.holds J anyE (resolve_pending c st)) ->
+  forall toks ls st, J st -> Dispatch.holds (fun lr => J (lr_st lr)) anyE (parse_loop c toks ls st).
+Proof. exact parse_loop_J. Qed.
+Print Assumptions C03_loop_carries.
+
+(** one whole occurrence, any source: outside the two families every group is coherent afterwards
+    if it was before ([src_ok]: the default source is only used for an absent id) *)
+Theorem C03_occurrence_coherent : forall c,
+  (forall a, In a (c_args c) -> find_arg c (a_id a) = Some a) -> rel_wf c = true -> group_safe c = true ->
+  (forall g, In g (c_groups c) -> find_arg c (g_id g) = None) ->
+  forall idn s a raw ti st st' pr, In a (c_args c) -> src_ok s a (mt st) -> Coh c (mt st) ->
+  react_core c idn s a raw ti st = ROk (st', pr) -> Coh c (mt st').
+Proof. exact react_core_coh. Qed.
+Print Assumptions C03_occurrence_coherent.
+
+(** any level of the recursion, any depth, with or without [ignore_errors]: outside the families a
+    successful level that starts from a coherent matcher ends in a coherent matcher ... *)
+Theorem C03_level_coherent : forall fuel c toks st0 st,
+  tree_ok fuel c -> group_safe c = true -> coherent_b c (mt st0) = true ->
+  get_matches_with fuel c toks st0 = ROk st -> coherent_b c (mt st) = true.
+Proof. exact level_coherent_b. Qed.
+Print Assumptions C03_level_coherent.
+
+(** ... and satisfies the member-based reading of the property *)
+Theorem C03_level_members : forall fuel c toks st0 st,
+  tree_ok fuel c -> group_safe c = true -> G c idx_inv trivV st0 -> Coh c (mt st0) ->
+  get_matches_with fuel c toks st0 = ROk st -> RelationsM c (mt st).
+Proof. exact level_members. Qed.
+Print Assumptions C03_level_members.
+
+(** the statement left visible in round 2: for every valid [plain] definition whose built root is
+    outside the two families and every token list, a successful parse without error-ignoring ends
+    in a coherent matcher, which satisfies [RelationsM] *)
+Theorem C03_parse_sound_members : forall c0 toks m,
+  plain c0 = true -> valid c0 = true -> group_safe (build_self c0) = true ->
+  do_parse c0 toks = OOk m -> is_set s_ignore_errors (build_self c0) = false ->
+  exists st, run_level c0 toks = ROk st /\ m = reported c0 st
+             /\ coherent_b (build_self c0) (mt st) = true /\ RelationsM (build_self c0) (mt st).
+Proof. exact parse_members. Qed.
+Print Assumptions C03_parse_sound_members.
+
+(** every level of the chain, hypotheses along the reported chain only: [strict_chain_b c m] -- every
+    level of the chain recorded in [m] that recorded a subcommand does not ignore errors;
+    [safe_chain_b c m] -- every level of that chain is outside the two families.  Siblings the
+    parse did not descend into are unconstrained (they may set [ignore_errors]). *)
+Theorem C03_level_chain_along : forall fuel c toks st0 st,
+  tree_ok fuel c -> G c idx_inv trivV st0 -> mt_sub (mt st0) = None ->
+  get_matches_with fuel c toks st0 = ROk st ->
+  strict_chain_b c (into_inner (mt st)) = true ->
+  validated_chain c (into_inner (mt st))
+  /\ (Coh c (mt st0) -> safe_chain_b c (into_inner (mt st)) = true -> members_chain c (into_inner (mt st))).
+Proof. exact gmw_chain_along. Qed.
+Print Assumptions C03_level_chain_along.
+
+Theorem C03_parse_sound_along : forall c0 toks m,
+  plain c0 = true -> valid c0 = true -> is_set s_ignore_errors (build_self c0) = false ->
+  do_parse c0 toks = OOk m -> strict_chain_b (build_self c0) m = true ->
+  exists st, run_level c0 toks = ROk st /\ m = reported c0 st
+             /\ validated_chain (build_self c0) (into_inner (mt st))
+             /\ Globals.chain m = Globals.chain (into_inner (mt st))
+             /\ (safe_chain_b (build_self c0) m = true -> members_chain (build_self c0) (into_inner (mt st))).
+Proof. exact parse_sound_along. Qed.
+Print Assumptions C03_parse_sound_along.
+
+Theorem C03_parse_top_sound_along : forall c0 argv m,
+  plain c0 = true -> (forall b, valid (c0 <| c_bin_name := b |>) = true) -> valid c0 = true ->
+  is_set s_ignore_errors (build_self c0) = false ->
+  parse_top c0 argv = OOk m ->
+  exists c1 toks,
+    (c1 = c0 \/ exists b, c1 = c0 <| c_bin_name := Some b |>)
+    /\ (strict_chain_b (build_self c1) m = true ->
+        exists st, run_level c1 toks = ROk st /\ m = reported c1 st
+          /\ validated_chain (build_self c1) (into_inner (mt st))
+          /\ Globals.chain m = Globals.chain (into_inner (mt st))
+          /\ (safe_chain_b (build_self c1) m = true -> members_chain (build_self c1) (into_inner (mt st)))).
+Proof. exact parse_top_sound_along. Qed.
+Print Assumptions C03_parse_top_sound_along.
+
+(** non-vacuity: a definition with a sibling that ignores errors ([no_ignore] fails), groups and a
+    firing override outside both families at the root, a non-multiple group at the child level *)
+Theorem C03_along_nonvacuous :
+  plain al_cmd = true /\ valid al_cmd = true /\ no_ignore al_cmd = false
+  /\ is_set s_ignore_errors (build_self al_cmd) = false
+  /\ group_safe (build_self al_cmd) = true
+  /\ (exists m, do_parse al_cmd al_toks = OOk m /\ Globals.chain m = [[115]]
+                /\ strict_chain_b (build_self al_cmd) m = true /\ safe_chain_b (build_self al_cmd) m = true)
+  /\ out_kind (do_parse al_cmd [[115]; dd [97;97]; dd [99;99]]) = Some EArgumentConflict
+  /\ out_kind (do_parse al_cmd [[115]; dd [97;97]; dd [98;98]]) = Some EArgumentConflict
+  /\ out_kind (do_parse al_cmd [[116]]) = Some EMissingRequiredArgument.
+Proof. exact along_nonvacuous. Qed.
+Print Assumptions C03_along_nonvacuous.
+
+(** ---------------------------------------------------------------------------------------
+    ROUND 3, COMPLETENESS FOR EVERY RELATION GRAPH (ParseProofs/RelationsCompleteAll.v): [requires] /
+    [requires_if] chains (through the exact requirement set), required groups, group [requires], the
+    [requires] of a present group and all conditional rule families.  No class restriction on the
+    definition any more ([static_only] is gone). *)
+
+(** if (R3) holds as the specification states it, [validate_required] finds nothing missing *)
+Theorem C03_missing_required_complete : forall c, rel_wf c = true -> forall mt potential,
+  fm_wf mt -> conflicts_with_args c mt = Some potential ->
+  (forall p, In p (positionals c) -> a_index p <> None) ->
+  (forall x, Required c mt (present mt) x -> satisfied c (present mt) x) ->
+  (forall a, In a (c_args c) -> cond_required mt (present mt) a ->
+             present mt (a_id a) \/ exclusive_present c (present mt)) ->
+  missing_required c mt potential = Some [].
+Proof. exact missing_required_complete. Qed.
+Print Assumptions C03_missing_required_complete.
+
+(** the validator accepts every matcher that satisfies the specification ... *)
+Theorem C03_validate_complete : forall c, rel_wf c = true -> forall mt,
+  fm_wf mt -> keys_ok c (mt_args mt) ->
+  (forall p, In p (positionals c) -> a_index p <> None) ->
+  negb (is_some (mt_sub mt)) && is_set s_arg_required_else_help c && is_nil (explicit_entries mt) = false ->
+  negb (is_some (mt_sub mt)) && is_set s_sub_required c = false ->
+  Relations c mt -> validate c mt = VOk.
+Proof. exact validate_complete. Qed.
+Print Assumptions C03_validate_complete.
+
+(** ... never answers MissingRequiredArgument for it ([C03_no_false_conflict] is the other kind) ... *)
+Theorem C03_no_false_missing : forall c, rel_wf c = true -> forall mt,
+  fm_wf mt -> keys_ok c (mt_args mt) -> (forall p, In p (positionals c) -> a_index p <> None) ->
+  Relations c mt -> forall a, validate c mt <> VErr EMissingRequiredArgument a.
+Proof. exact validate_no_missing_error. Qed.
+Print Assumptions C03_no_false_missing.
+
+(** ... and IS the specification: any graph, any well-formed matcher (the two checks that are not
+    relations -- help-on-empty-argv, subcommand-required -- set aside) *)
+Theorem C03_validate_iff : forall c mt,
+  assert_app c = true -> fm_wf mt -> keys_ok c (mt_args mt) ->
+  (forall p, In p (positionals c) -> a_index p <> None) ->
+  negb (is_some (mt_sub mt)) && is_set s_arg_required_else_help c && is_nil (explicit_entries mt) = false ->
+  negb (is_some (mt_sub mt)) && is_set s_sub_required c = false ->
+  (validate c mt = VOk <-> Relations c mt).
+Proof. exact validate_iff. Qed.
+Print Assumptions C03_validate_iff.
+
+(** the same for the member-based reading on coherent matchers *)
+Theorem C03_validate_iff_members : forall c mt,
+  assert_app c = true -> fm_wf mt -> keys_ok c (mt_args mt) ->
+  (forall p, In p (positionals c) -> a_index p <> None) ->
+  negb (is_some (mt_sub mt)) && is_set s_arg_required_else_help c && is_nil (explicit_entries mt) = false ->
+  negb (is_some (mt_sub mt)) && is_set s_sub_required c = false ->
+  coherent_b c mt = true ->
+  (validate c mt = VOk <-> RelationsM c mt).
+Proof. exact validate_iff_members. Qed.
+Print Assumptions C03_validate_iff_members.
+
+(** on the parser's own states the side conditions are discharged by the loop invariant *)
+Theorem C03_validate_iff_invariant : forall c st,
+  wfc c -> assert_app c = true -> G c idx_inv trivV st ->
+  negb (is_some (mt_sub (mt st))) && is_set s_arg_required_else_help c && is_nil (explicit_entries (mt st)) = false ->
+  negb (is_some (mt_sub (mt st))) && is_set s_sub_required c = false ->
+  (validate c (mt st) = VOk <-> Relations c (mt st)).
+Proof. exact validate_iff_invariant. Qed.
+Print Assumptions C03_validate_iff_invariant.
+
+(** ---------------------------------------------------------------------------------------
+    ROUND 3, THREE CLAUSES MADE EXPLICIT (ParseProofs/RelationsClauses3.v) *)
+
+(** (a) a conflict declared by a group against another GROUP reaches the members of both, for
+    [multiple] groups too: member-based reading, the matcher's own entries, and the code fact *)
+Theorem C03_clause_group_conflicts_group_members : forall c mt,
+  RelationsM c mt -> forall i a g h gh j,
+  arg_of c i a -> member c i g -> In h (g_conflicts g) -> group_of c h gh -> In j (g_args gh) ->
+  present mt i -> present mt j -> False.
+Proof. exact clause_group_conflicts_group_members. Qed.
+Print Assumptions C03_clause_group_conflicts_group_members.
+
+Theorem C03_clause_group_conflicts_group_entry : forall c mt,
+  Relations c mt -> forall i a g h gh,
+  arg_of c i a -> member c i g -> In h (g_conflicts g) -> group_of c h gh ->
+  present mt i -> present mt h -> False.
+Proof. exact clause_group_conflicts_group_entry. Qed.
+Print Assumptions C03_clause_group_conflicts_group_entry.
+
+Theorem C03_direct_conflicts_multiple_group : forall c, rel_wf c = true -> forall i a g h conf,
+  arg_of c i a -> member c i g -> g_multiple g = true -> In h (g_conflicts g) ->
+  gather_direct_conflicts c i = Some conf -> In h conf.
+Proof. exact direct_conflicts_multiple_group. Qed.
+Print Assumptions C03_direct_conflicts_multiple_group.
+
+(** (b) [required_if_eq*] and [required_unless_present*] on one argument: either family demands it *)
+Theorem C03_clause_required_if_unless_union : forall c mt, Relations c mt -> negates_reqs c mt = false ->
+  forall a, In a (c_args c) -> if_fires mt a \/ unless_fires mt a ->
+  present mt (a_id a) \/ exclusive_present c (present mt).
+Proof. exact clause_required_if_unless_union. Qed.
+Print Assumptions C03_clause_required_if_unless_union.
+
+Theorem C03_clause_required_if_despite_unless : forall c mt, Relations c mt -> negates_reqs c mt = false ->
+  forall a o v u, In a (c_args c) -> In (o, v) (a_r_ifs a) -> has_value mt o v ->
+  In u (a_r_unless a) -> present mt u ->
+  present mt (a_id a) \/ exclusive_present c (present mt).
+Proof. exact clause_required_if_despite_unless. Qed.
+Print Assumptions C03_clause_required_if_despite_unless.
+
+Theorem C03_clause_required_unless_despite_if : forall c mt, Relations c mt -> negates_reqs c mt = false ->
+  forall a, In a (c_args c) -> a_r_unless a <> [] -> a_r_unless_all a = [] ->
+  (forall o, In o (a_r_unless a) -> ~ present mt o) ->
+  (forall o v, In (o, v) (a_r_ifs a) -> ~ has_value mt o v) ->
+  present mt (a_id a) \/ exclusive_present c (present mt).
+Proof. exact clause_required_unless_despite_if. Qed.
+Print Assumptions C03_clause_required_unless_despite_if.
+
+(** the boolean the validator computes for the conditional rules is exactly that union *)
+Theorem C03_conditional_union_exact : forall mt a,
+  cond_b mt a = true <-> if_fires mt a \/ unless_fires mt a.
+Proof. exact cond_b_is_union. Qed.
+Print Assumptions C03_conditional_union_exact.
+
+(** (c) [Equals] reads every stored occurrence of the condition argument *)
+Theorem C03_clause_required_if_eq_any_occurrence : forall c mt, Relations c mt -> negates_reqs c mt = false ->
+  forall a o v m grp, In a (c_args c) -> In (o, v) (a_r_ifs a) ->
+  fm_get o (mt_args mt) = Some m -> m_source m <> Some SDefault -> m_ignore_case m = false ->
+  In grp (m_raw m) -> In v grp ->
+  present mt (a_id a) \/ exclusive_present c (present mt).
+Proof. exact clause_required_if_eq_any_occurrence. Qed.
+Print Assumptions C03_clause_required_if_eq_any_occurrence.
+
+Theorem C03_clause_requires_if_any_occurrence : forall c mt, Relations c mt -> negates_reqs c mt = false ->
+  forall i a m v y b grp, arg_of c i a -> fm_get i (mt_args mt) = Some m -> In (PEquals v, y) (a_requires a) ->
+  m_source m <> Some SDefault -> m_ignore_case m = false -> In grp (m_raw m) -> In v grp ->
+  arg_of c y b -> arg_satisfied c mt y.
+Proof. exact clause_requires_if_any_occurrence. Qed.
+Print Assumptions C03_clause_requires_if_any_occurrence.
+
+(** witnesses (replayed on the real crate: corpus/C03/relgraph.round3-witnesses.cases): a definition
+    outside [static_only] with every rule family; accepted and rejected lines for each of them *)
+Theorem C03_complete_all_witnesses :
+  valid ca_cmd = true /\ static_only (build_self ca_cmd) = false /\ pos_indexed_b (build_self ca_cmd) = true
+  /\ lvl_wf ca_cmd [mm; dd [112;112]; dd [117;117]] = true
+  /\ lvl_verdict ca_cmd [mm; dd [112;112]; dd [117;117]] = Some VOk
+  /\ lvl_wf ca_cmd full_line = true /\ lvl_verdict ca_cmd full_line = Some VOk
+  /\ lvl_verdict ca_cmd [mm; dd [97;97]; dd [98;98]; ww; dd [121;121]; dd [111;111]; vv]
+     = Some (VErr EMissingRequiredArgument j_p)
+  /\ lvl_verdict ca_cmd [mm; dd [117;117]] = Some (VErr EMissingRequiredArgument j_p)
+  /\ lvl_verdict ca_cmd [mm; dd [97;97]; dd [98;98]; xx; dd [121;121]; dd [111;111]; vv; dd [111;111]; xx]
+     = Some (VErr EMissingRequiredArgument j_p)
+  /\ lvl_verdict ca_cmd [mm; dd [97;97]; dd [98;98]; ww; dd [121;121]; dd [111;111]; vv; dd [112;112]]
+     = Some (VErr EMissingRequiredArgument j_q)
+  /\ lvl_verdict ca_cmd [mm; dd [97;97]; dd [98;98]; vv; dd [111;111]; xx]
+     = Some (VErr EMissingRequiredArgument j_y)
+  /\ lvl_verdict ca_cmd [dd [112;112]; dd [117;117]] = Some (VErr EMissingRequiredArgument j_G)
+  /\ lvl_verdict ca_cmd [mm; dd [112;112]; dd [117;117]; dd [107;107]] = Some (VErr EMissingRequiredArgument j_y)
+  /\ lvl_verdict ca_cmd [mm; dd [112;112]; dd [117;117]; dd [121;121]; dd [107;107]; dd [110;110]]
+     = Some (VErr EArgumentConflict j_k).
+Proof. exact complete_all_witnesses. Qed.
+Print Assumptions C03_complete_all_witnesses.
+
+(** completeness used backwards: the matcher of a line the validator rejects does NOT satisfy the
+    specification *)
+Theorem C03_union_line_breaks_relations :
+  exists e st, run_level ca_cmd [mm; dd [97;97]; dd [98;98]; ww; dd [121;121]; dd [111;111]; vv] = RErr e st
+    /\ ~ Relations (build_self ca_cmd) (mt st).
+Proof. exact union_line_breaks_relations. Qed.
+Print Assumptions C03_union_line_breaks_relations.
+
+(** the hypothesis [strict_chain_b] is needed: a level ON the chain that ignores errors records the
+    unvalidated matcher of its child (root -> s (ignore_errors) -> t (a required argument), line `s t`) *)
+Theorem C03_strict_chain_needed :
+  plain ig_root = true /\ valid ig_root = true /\ is_set s_ignore_errors (build_self ig_root) = false
+  /\ exists m sm, do_parse ig_root [[115]; [116]] = OOk m /\ Globals.chain m = [[115]; [116]]
+       /\ strict_chain_b (build_self ig_root) m = false
+       /\ match sub_matches m with Some m1 => sub_matches m1 | None => None end = Some sm
+       /\ ~ Relations (built_sub (built_sub (build_self ig_root) [115]) [116]) (level_matcher sm).
+Proof. exact strict_chain_needed. Qed.
+Print Assumptions C03_strict_chain_needed.
